@@ -27,4 +27,9 @@ def run(ctx):
     # TaskSet / ConcurrentTaskSet half of the property (spec/taskset/TaskSet.tla, drv_taskset)
     import c47_taskset
     c47_taskset.run_taskset_part(ctx)
+    # E5, allocation failure inside the central queue's enqueue (spec/pool/FqFaultObs.tla, drv_fqfault): the one branch of
+    # the force-queued paths that the controlled engines above can never take - under them the queue always has memory -
+    # and on which the property must hold all the same (ThreadPool, TaskSet, ConcurrentTaskSet light / heavy)
+    import c47_fqfault
+    c47_fqfault.run_fqfault_part(ctx)
     ctx.assumptions += pc.ASSUME
